@@ -61,3 +61,25 @@ Theorem tie_float_formats :
   Generated.gen_double_fmt = [115;110;112;114;105;110;116;102;40;40;115;41;44;32;40;108;41;44;32;34;37;46;49;53;108;103;34;44;32;40;118;41;41]%N /\
   Generated.gen_float_fmt = [115;110;112;114;105;110;116;102;40;40;115;41;44;32;40;108;41;44;32;34;37;103;34;44;32;40;118;41;41]%N.
 Proof. split; reflexivity. Qed.
+
+(* ---------- the lexer's character classes, for every byte value ---------- *)
+(* lexer.c's predicates (its own and the <ctype.h> ones it calls) were evaluated by the C compiler on all 256 byte values;
+   each model predicate holds on exactly the same bytes *)
+Definition bytes256 : list N := map N.of_nat (seq 0 256).
+Definition same_class (p:N -> bool) (members:list N) : bool := forallb (fun c => Bool.eqb (p c) (existsb (N.eqb c) members)) bytes256.
+Theorem tie_char_classes :
+  same_class LexModel.isws Generated.gen_cc_isws = true /\ same_class LexModel.isbdigit Generated.gen_cc_isbdigit = true /\
+  same_class LexModel.isqdigit Generated.gen_cc_isqdigit = true /\ same_class LexModel.isplusmn Generated.gen_cc_isplusmn = true /\
+  same_class LexModel.isH Generated.gen_cc_isH = true /\ same_class LexModel.isB Generated.gen_cc_isB = true /\
+  same_class LexModel.isQ Generated.gen_cc_isQ = true /\ same_class LexModel.isE Generated.gen_cc_isE = true /\
+  same_class LexModel.isascii7 Generated.gen_cc_isascii7 = true /\ same_class LexModel.isexpr Generated.gen_cc_isexpr = true /\
+  same_class (fun c => LexModel.isdigit c && negb (LexModel.ischr 48%N c)) Generated.gen_cc_isnzdigit = true /\
+  same_class LexModel.isdigit Generated.gen_cc_isdigit = true /\ same_class LexModel.isalpha Generated.gen_cc_isalpha = true /\
+  same_class LexModel.isalnum Generated.gen_cc_isalnum = true /\ same_class LexModel.isxdigit Generated.gen_cc_isxdigit = true.
+Proof. vm_compute. repeat split. Qed.
+(* what the finite statement means *)
+Lemma same_class_spec p members : same_class p members = true -> forall c, (c < 256)%N -> p c = existsb (N.eqb c) members.
+Proof.
+  unfold same_class. rewrite forallb_forall. intros H c Hc. apply Bool.eqb_prop. apply H.
+  unfold bytes256. apply in_map_iff. exists (N.to_nat c). split; [apply N2Nat.id|]. apply in_seq. change 256%N with (N.of_nat 256) in Hc. lia.
+Qed.
